@@ -1,6 +1,7 @@
 SPECIFICATION Spec
 CONSTANTS Thresholds = {10, 16, 20, 32, 50, 64, 100, 128, 200, 256}
- Offsets = {-4, -3, -2, -1, 0, 1}
+ Offsets = {0, 1, 2, 3, 4, 5}
+ Shift = 4
  Unused = {0, 3, 8}
  Kinds = {"unbound", "mismatch"}
 INVARIANTS SizeOk EmitInv
